@@ -152,6 +152,24 @@ def run(chk: Check, tier: str, seed: int) -> None:
         chk.nontrivial.add((untext(rec["texts"][0]), json.dumps(rec["narrow"])))
         for sig, case, what in res:
             chk.violation(sig, case, what)
+    # ---- the same verdicts through the implementation-shaped parser model: code = Parser.tla = Typing.tla, and the
+    # ---- parser model against the code on lexeme soups (accept / refuse, error class and tree for every token sequence)
+    from .. import parsecheck
+
+    items = []
+    seen = set()
+    for rec in recs:
+        for t in rec["texts"]:
+            key = (untext(t), json.dumps(rec["narrow"]))
+            if key not in seen:
+                seen.add(key)
+                items.append({"text": key[0], "lim": rec["narrow"], "accept": rec["accept"]})
+    for t in parsecheck.soup_texts(chk, "mutants", 0) + parsecheck.soup_texts(chk, "soup", 2 if tier == "quick" else 3):
+        items.append({"text": t, "lim": None})
+    rejects, counters = parsecheck.validate(chk, items)
+    parsecheck.report(chk, rejects, "parser")
+    chk.extra["parser_model"] = counters
+    chk.traces += counters["recorded"]
     acc = sum(1 for r in recs if r["accept"])
     chk.extra["programs_accepted_by_spec"] = acc
     chk.extra["programs_refused_by_spec"] = len(recs) - acc
@@ -162,7 +180,8 @@ def run(chk: Check, tier: str, seed: int) -> None:
                 "tests, arity, argument kinds, unknown functions, uncompared literals) in 11 positions (top level, under !, in parentheses, either side of && / ||, "
                 "nested filters, descendant segments) (thorough: all pairs), selectors with leading zeros / empty or comma-terminated lists / bounds at, inside and "
                 "outside +-(2^53-1) and, under narrowed limits -5..5, -3..10, -10..3, 0..5 and -5..0, at / inside / outside either limit and their mirror images, in 6 positions; every text "
-                "is also compiled in a reconfigured environment and in one that has compiled well-typed calls of every function before; 3 spellings each; every program contains a filter or an injected defect")
+                "is also compiled in a reconfigured environment and in one that has compiled well-typed calls of every function before; the tokens and the tree / "
+                "error class of every text, and of every lexeme soup and single-lexeme mutant of MC_Soup, validated by TLC against Parser.tla (with the typing verdict); 3 spellings each; every program contains a filter or an injected defect")
     chk.assumptions += ["a leading zero in a slice bound is not in the property's list of refusals and is not classified"]
 
 
